@@ -314,6 +314,7 @@ pub fn run_property(prop: &'static dyn Prop, tier: Tier, seed: u64, root: &Path)
     let known = Known::load(root);
     let mut crash_notes: Vec<Value> = vec![];
     let mut unconfirmed = 0u64;
+    let mut over_budget = 0u64;
     // dedupe incidents by input
     let mut seen_inc: HashSet<String> = HashSet::new();
     for inc in incidents.iter() {
@@ -324,6 +325,13 @@ pub fn run_property(prop: &'static dyn Prop, tier: Tier, seed: u64, root: &Path)
         evaluations += 1;
         if inc.sec == "?" {
             infra.push(format!("worker {} outside a case: {}", inc.kind, inc.status));
+            continue;
+        }
+        if inc.kind == "timeout" && !timeout_is_violation {
+            // not a verdict for this property: recorded as an inconclusive (over-budget) case
+            crash_notes.push(json!({"kind": "timeout", "section": inc.sec, "choices_hex": inc.input_hex, "index": inc.index,
+                                    "first_status": inc.status, "note": "over the per-case time budget; inconclusive, not re-run"}));
+            over_budget += 1;
             continue;
         }
         let limit = if inc.kind == "timeout" { timeout_s * 4 } else { timeout_s * 2 };
@@ -457,6 +465,7 @@ pub fn run_property(prop: &'static dyn Prop, tier: Tier, seed: u64, root: &Path)
     );
     coverage.insert("incidents".into(), json!(crash_notes));
     coverage.insert("incidents_not_reproduced_alone".into(), json!(unconfirmed));
+    coverage.insert("cases_over_time_budget".into(), json!(over_budget));
     coverage.insert("shards".into(), json!(nshards));
     if let Some(o) = prop.extra_evidence(tier).as_object() {
         for (k, v) in o {
